@@ -555,7 +555,7 @@ func NewSpecSet() *SpecSet {
 
 var clauseKeywords = map[string]bool{"spec": true, "axiom": true, "ghost": true, "func": true, "requires": true, "ensures": true,
 	"modifies": true, "loop": true, "at": true, "maypanic": true, "inline": true, "trusted": true, "pure": true, "check": true,
-	"let": true, "chanmode": true, "chaninv": true, "defines": true, "maintains": true, "thorough": true, "secret": true, "flows": true, "asset": true, "nosafety": true, "guarded": true, "noverify": true, "ghostparam": true}
+	"let": true, "chanmode": true, "chaninv": true, "defines": true, "maintains": true, "thorough": true, "secret": true, "flows": true, "asset": true, "nosafety": true, "guarded": true, "after": true, "noverify": true, "ghostparam": true}
 
 // ReadSpecFile reads //@ lines. pkgPrefix is prepended to `func` keys that are
 // not already qualified (contract files inside a package use short keys).
@@ -813,6 +813,20 @@ func (ss *SpecSet) ReadSpecFile(path, pkgPrefix string) error {
 					}
 					cur.Modifies = append(cur.Modifies, ModLoc{part, e})
 				}
+			case "after":
+				// after call CALLEE#k set GHOST = EXPR   (ghost assignment right after the call returned; `result` bound)
+				f := strings.Fields(rest)
+				if len(f) < 6 || f[0] != "call" || f[2] != "set" || f[4] != "=" {
+					fail(rc.line, "after call CALLEE#k set GHOST = EXPR")
+					continue
+				}
+				body := strings.TrimSpace(strings.SplitN(rest, "=", 2)[1])
+				e, err := ParseExpr(body)
+				if err != nil {
+					fail(rc.line, "%v", err)
+					continue
+				}
+				cur.Clauses = append(cur.Clauses, &Clause{Kind: "aftercallset", Site: f[1], Label: f[3], E: e, Src: body, File: path, Line: rc.line})
 			case "flows":
 				fl, err := parseFlowClause(rest)
 				if err != nil {
